@@ -184,6 +184,19 @@ def handle_prob(c):
             bound = fracs(spec.get(name), size)
             for k in range(size):
                 got = arr[k]
+                if name != 'equals' and s[k] < 0:
+                    # a negative scaler reverses the order: the scaled lower bound is the image of the
+                    # upper bound (-1e30 when there is none) and vice versa
+                    other = fracs(spec.get('upper' if is_lower else 'lower'), size)
+                    sent = -INF if is_lower else INF
+                    if other is None or (other[k] >= INF if is_lower else other[k] <= -INF):
+                        wantq = sent
+                    else:
+                        wantq = (other[k] + a[k]) * s[k]
+                    if np.isnan(got) or not close(F(got), wantq, tol):
+                        fails.append(('bound-image', '%s %s[%d] (negative scaler): scaled bound %r, image of the declared %s bound is %s' % (
+                            label, name, k, got, 'upper' if is_lower else 'lower', float(wantq))))
+                    continue
                 if bound is None:
                     if name == 'equals':
                         ok = np.isnan(got)
